@@ -111,6 +111,85 @@ def summary_table(A):
     return out
 
 
+def positive_answer(A):
+    """the answer of the requirement summary under which the consider logic offers an up-to-date Ephemeral (None if not unique)"""
+    if "_c04_pos" in A.__dict__:
+        return A.__dict__["_c04_pos"]
+    from rules_compare import skip_kind, consider_entry_fns, invalidated_states
+    C = A.classes()
+    K = kinds(A)
+    sk = skip_kind(A)
+    inv = invalidated_states(A)
+    cleanup_kinds = set(A.kind_of(s) for s in C["CleanupOffered"])
+    reach = A.reach()
+    tabs = summary_table(A)
+    fns = [A.facts.body(n_) for n_ in sorted(consider_entry_fns(A, sk))]
+    pend = [s for s in sorted(reach) if A.kind_of(s) in cleanup_kinds and s not in C["Finished"] and s not in C["Ready"] and s not in C["Running"]
+            and s not in inv and s not in C["Init"]]
+    positive = set()
+    for b in fns:
+        for t_ in tabs:
+            rb = t_["fn"]
+            rt = rb.locals[0]
+            fty = rt.get("adt") if rt.get("adt") in A.uni.fin else [x for x in A.uni.fin if rt["s"].startswith("std::result::Result<%s," % x)][0]
+            wrap = rt.get("adt") not in A.uni.fin
+            for v in A.uni.fin[fty]:
+                val = fin(fty, [v])
+                rv = adt(RESULT, {0: (val,)}) if wrap else val
+                ov = {rb.name: (lambda rv_: (lambda I_, st_, fr_, bi_, t2_, a_, sp_: [(rv_, st_)]))(rv)}
+                for s in pend:
+                    I, fr, out, col = forced_analysis(A, b, ov, cfgd=dict(label="C04R", cell_init={"param": fin(A.L.jobstate, [s])}))
+                    if any(k[0] == "push_signal" and K["ready"] in x["kinds"] and is_role(x["key"], "param") for k, x in I.rec.facts.items()):
+                        positive.add(v)
+    A.__dict__["_c04_pos"] = list(positive)[0] if len(positive) == 1 else None
+    return A.__dict__["_c04_pos"]
+
+
+def rule_invalidated_is_needed(A, R, rule):
+    """A job that has to run makes its Ephemeral inputs needed - by the requirement summary looking at its state, or by flagging its
+    incoming dependencies whenever it is marked invalidated.  (One of the two must hold for every invalidated state; if neither
+    does, a parked Ephemeral input is neither run nor skipped and the evaluation stalls, or it is skipped and its consumer runs
+    without it.)"""
+    from rules_compare import invalidated_states
+    from rules_more import requirement_field, connected_fn
+    C = A.classes()
+    K = kinds(A)
+    H = A.handler_runs()
+    inv = invalidated_states(A)
+    pos = positive_answer(A)
+    R.ob(rule, "the 'needed' answer of the requirement summary is identified", pos is not None)
+    if pos is None:
+        return
+    rf = requirement_field(A)
+    tabs = summary_table(A)
+    # all runs that can write an invalidated state
+    runs = list(A.startup_runs())
+    for s in A.reach():
+        if s not in C["Finished"] and s not in C["Running"] and s not in C["Ready"]:
+            runs.append(H[(K["consider"], s)])
+    for d in sorted(inv):
+        by_summary = bool(tabs) and all(all((not e["unknown"]) and e["early"] == {pos} and not e["cont"]
+                                            for (d2, c), e in tab["table"].items() if d2 == d) for tab in tabs)
+        unflagged = []
+        nw = 0
+        for run in runs:
+            for w in run.by_kind("write_state"):
+                if d not in w["to"] or d in w["frm"]:
+                    continue
+                nw += 1
+                fl = [x for x in run.by_kind("write_edge") if x["proj"] == rf and x["b"] == w["key"][0] and x["value"][0] == "fin"
+                      and set(x["value"][2]) == {pos} and connected_fn(A, w, x)]
+                other = [x for x in run.by_kind("write_edge") if x["proj"] == rf and x["b"] == w["key"][0] and x["value"][0] == "fin"
+                         and set(x["value"][2]) != {pos} and connected_fn(A, w, x)]
+                if not fl or other:
+                    unflagged.append(w)
+        R.ob(rule, "a job marked %s makes its Ephemeral inputs needed (through the summary, or by flagging its incoming dependencies)" % A.sname(d),
+             by_summary or (nw > 0 and not unflagged),
+             detail="the requirement summary does not answer 'needed' for a downstream in this state whatever the flags say, and %d of %d "
+                    "writes of the state leave the incoming dependencies unflagged (or flag them 'not needed')" % (len(unflagged), nw),
+             site=A.site(unflagged[0]) if unflagged else "")
+
+
 @prop("C04")
 def check_C04(A, R, tier):
     from rules_compare import (invalidated_states, skip_kind, consider_entry_fns, validation_ty, validated_verdict, rule_shielding, STRAT,
@@ -260,6 +339,7 @@ def check_C04(A, R, tier):
                      detail="with edge flags %s the summary answers 'needed': an up-to-date Ephemeral is executed although no downstream that "
                             "runs consumes it" % sorted(set(bad))[:3])
             R.floor("R4.4", "downstream states examined", n, 10)
+    rule_invalidated_is_needed(A, R, "R4.9")
     # R4.5 shielding: an output judged unaltered does not invalidate a dependency (= R15.2) ... ----------------------------------------
     rule_shielding(A, R, "R4.5")
     # R4.6 ... and the validation verdict is 'invalidated' only if some comparison said 'altered' or some record is missing -----------
